@@ -93,7 +93,10 @@ def _work(texts):
     import_ckl()
     signal.signal(signal.SIGALRM, _alarm)
     out = []
+    hangs = 0
     for text in texts:
+        if hangs >= 5:
+            break          # this chunk sits in a family of hanging inputs: enough evidence, do not spend 5 s on each
         res = []
         for _ in range(2):
             signal.alarm(TIMEOUT_S)
@@ -105,6 +108,7 @@ def _work(texts):
                 signal.alarm(0)
             res.append(r)
             if r[0] == "timeout":
+                hangs += 1
                 break
         out.append((text, res))
     return out
@@ -114,9 +118,16 @@ def classify_all(texts, procs=16, chunk=400):
     texts = list(texts)
     parts = [texts[k:k + chunk] for k in range(0, len(texts), chunk)]
     out = []
+    timeouts = 0
     with mp.Pool(procs) as pool:
         for part in pool.imap(_work, parts):
             out.extend(part)
+            timeouts += sum(1 for _, res in part if res[0][0] == "timeout")
+            if timeouts > 60:
+                # the parser hangs on a whole family of inputs: what is collected so far is
+                # reported; going on would only spend 5 s per further input
+                pool.terminate()
+                break
     return out
 
 
@@ -126,9 +137,15 @@ def judge(run, text, res, origin):
     r = res[0]
     case = {"text": text, "origin": origin}
     if r[0] == "timeout":
-        # re-run once in isolation before reporting (load must not cause alarms)
+        # re-run in isolation before reporting (load must not cause alarms); once a few
+        # hangs are confirmed that way the rest of this run's timeouts are reported directly
+        confirmed = getattr(run, "_hangs_confirmed", 0)
+        if confirmed >= 3:
+            run.violation("hang:" + text, f"hang: no result within {TIMEOUT_S}s for {text!r}", case)
+            return r
         again = _work([text])[0][1][0]
         if again[0] == "timeout":
+            run._hangs_confirmed = confirmed + 1
             run.violation("hang:" + text, f"hang: no result within {TIMEOUT_S}s for {text!r}", case)
         return again
     if r[0] == "host":
